@@ -27,7 +27,7 @@ fn dispatch(v: &Value) -> Value {
         "ping" => json!({"ok": true}),
         "alt_key" | "semver_compat" | "namemap" | "semver_parse" => ops_names::run(op, v),
         "lexer_spans" | "block_comment_length" | "lex_string" | "discover" => ops_lexer::run(op, v),
-        "subtype" | "package_from_wat" => ops_types::run(op, v),
+        "subtype" | "package_from_wat" | "aggregate" => ops_types::run(op, v),
         _ => json!({"error": format!("unknown op {op}")}),
     }
 }
